@@ -9,7 +9,8 @@
 //!    through `KVVPersister<MemoryKVVStore>` + `Node::restore_node`, and fresh nodes on the same seed.
 //! Monitors (ghost ledger keyed by (style, seed, network, channel id), kept across restarts and node
 //! instantiations): `keys-depend-on-history`, `keys-collide-across-ids`, `secret-tree-law-broken`,
-//! `public-keys-not-from-secrets`, `secret-does-not-match-commitment-number` (a secret handed out for
+//! `public-keys-not-from-secrets`, `sweep-keys-differ-from-channel-keys` (every place that re-derives a
+//! signer from a keys id / descriptor must produce the channel's keys), `secret-does-not-match-commitment-number` (a secret handed out for
 //! number k by a repeated revocation / the old GetPerCommitmentPoint reply is not the secret k).
 use crate::common::*;
 use lightning_signer::bitcoin::bip32::{ChildNumber, DerivationPath, Xpriv};
@@ -21,7 +22,16 @@ use lightning_signer::channel::{ChannelBase, ChannelId, ChannelSlot};
 use lightning_signer::lightning::ln::chan_utils::{
     build_commitment_secret, ChannelPublicKeys, CounterpartyCommitmentSecrets,
 };
-use lightning_signer::lightning::sign::{ChannelSigner, InMemorySigner};
+use lightning_signer::bitcoin::secp256k1::{ecdsa::Signature as EcdsaSig, Message as SecpMessage};
+use lightning_signer::bitcoin::sighash::{EcdsaSighashType, SighashCache};
+use lightning_signer::bitcoin::{Amount, ScriptBuf, TxOut, WPubkeyHash};
+use lightning_signer::lightning::chain::transaction::OutPoint as LdkOutPoint;
+use lightning_signer::lightning::ln::chan_utils::get_revokeable_redeemscript;
+use lightning_signer::lightning::ln::channel_keys::{DelayedPaymentKey, RevocationKey};
+use lightning_signer::lightning::sign::{
+    ChannelSigner, DelayedPaymentOutputDescriptor, InMemorySigner, SpendableOutputDescriptor,
+    StaticPaymentOutputDescriptor,
+};
 use lightning_signer::node::{Node, NodeConfig, NodeServices};
 use lightning_signer::persist::Persist;
 use lightning_signer::policy::simple_validator::SimpleValidatorFactory;
@@ -692,6 +702,97 @@ fn roundtrip(h: &ChannelHandler, m: &dyn SerBolt) -> Option<Message> {
     msgs::from_vec(reply.as_vec()).ok()
 }
 
+/// Sweep of a channel's own outputs through the real `Node::spend_spendable_outputs`: the
+/// descriptors are built from what the channel *reports* (its basepoints, the `channel_keys_id` of its
+/// signer, its value), as LDK builds them after a close.  The keys manager re-derives a signer from
+/// the descriptor; the witnesses it produces must be made with the channel's keys.
+/// Returns Ok(()) when every input is signed by the expected key, Err(reason) otherwise.
+fn sweep_check(node: &Arc<Node>, keys: &InMemorySigner, reported: &ChannelPublicKeys, kind: &str, n: u64) -> Result<(), String> {
+    sweep_check_many(node, &[(keys.clone(), reported.clone())], kind, n)
+}
+
+/// the same for several channels in one call (the keys manager caches one signer per keys id)
+fn sweep_check_many(node: &Arc<Node>, chans: &[(InMemorySigner, ChannelPublicKeys)], kind: &str, n: u64) -> Result<(), String> {
+    let secp = Secp256k1::new();
+    let value = Amount::from_sat(100_000);
+    let mut descs: Vec<SpendableOutputDescriptor> = Vec::new();
+    // (expected signing key, script code, is_static)
+    let mut expect: Vec<(PublicKey, ScriptBuf, bool)> = Vec::new();
+    for (ci, (keys, reported)) in chans.iter().enumerate() {
+    let mut txid = [0u8; 32];
+    txid[..8].copy_from_slice(&n.to_be_bytes());
+    txid[31] = ci as u8;
+    if kind == "s" || kind == "b" {
+        let pp = reported.payment_point;
+        let out = TxOut { value, script_pubkey: ScriptBuf::new_p2wpkh(&WPubkeyHash::hash(&pp.serialize())) };
+        descs.push(SpendableOutputDescriptor::StaticPaymentOutput(StaticPaymentOutputDescriptor {
+            outpoint: LdkOutPoint { txid: Txid::from_slice(&txid).unwrap(), index: 0 },
+            output: out,
+            channel_keys_id: keys.channel_keys_id(),
+            channel_value_satoshis: 3_000_000,
+            channel_transaction_parameters: None,
+        }));
+        let code = ScriptBuf::new_p2pkh(&lightning_signer::bitcoin::PublicKey::new(pp).pubkey_hash());
+        expect.push((pp, code, true));
+    }
+    if kind == "d" || kind == "b" {
+        let sec = keys.release_commitment_secret(INITIAL - n).map_err(|_| "no secret".to_string())?;
+        let point = PublicKey::from_secret_key(&secp, &SecretKey::from_slice(&sec).unwrap());
+        let delayed = DelayedPaymentKey::from_basepoint(&secp, &reported.delayed_payment_basepoint, &point);
+        let revocation = RevocationKey(PublicKey::from_secret_key(&secp, &SecretKey::from_slice(&[0x42u8; 32]).unwrap()));
+        let delay = 144u16;
+        let ws = get_revokeable_redeemscript(&revocation, delay, &delayed);
+        let out = TxOut { value, script_pubkey: ws.to_p2wsh() };
+        descs.push(SpendableOutputDescriptor::DelayedPaymentOutput(DelayedPaymentOutputDescriptor {
+            outpoint: LdkOutPoint { txid: Txid::from_slice(&txid).unwrap(), index: 1 },
+            per_commitment_point: point,
+            to_self_delay: delay,
+            output: out,
+            revocation_pubkey: revocation,
+            channel_keys_id: keys.channel_keys_id(),
+            channel_value_satoshis: 3_000_000,
+            channel_transaction_parameters: None,
+        }));
+        expect.push((delayed.to_public_key(), ws, false));
+    }
+    }
+    let refs: Vec<&SpendableOutputDescriptor> = descs.iter().collect();
+    let change = ScriptBuf::new_p2wpkh(&WPubkeyHash::hash(&[7u8; 33]));
+    let n2 = node.clone();
+    let r = std::panic::catch_unwind(std::panic::AssertUnwindSafe(move || n2.spend_spendable_outputs(&refs, vec![], change, 253)));
+    let tx = match r {
+        Err(e) => {
+            let why = e.downcast_ref::<String>().cloned().or_else(|| e.downcast_ref::<&str>().map(|s| s.to_string())).unwrap_or_default();
+            return Err(format!("spend_spendable_outputs panicked: {}", why.replace('\n', " ")));
+        }
+        Ok(Err(())) => return Err("spend_spendable_outputs refused".into()),
+        Ok(Ok(tx)) => tx,
+    };
+    if tx.input.len() != expect.len() {
+        return Err(format!("{} inputs for {} descriptors", tx.input.len(), expect.len()));
+    }
+    for (i, (key, code, is_static)) in expect.iter().enumerate() {
+        let w = &tx.input[i].witness;
+        let sig_item = w.nth(0).ok_or("empty witness")?;
+        if sig_item.is_empty() {
+            return Err(format!("input {}: empty signature", i));
+        }
+        if *is_static {
+            let used = w.nth(1).and_then(|k| PublicKey::from_slice(k).ok());
+            if used != Some(*key) {
+                return Err(format!("input {}: witness key {:?} is not the channel's payment point {}", i, used, key));
+            }
+        }
+        let sig = EcdsaSig::from_der(&sig_item[..sig_item.len() - 1]).map_err(|e| format!("input {}: {}", i, e))?;
+        let sighash = SighashCache::new(&tx).p2wsh_signature_hash(i, code, value, EcdsaSighashType::All).map_err(|e| e.to_string())?;
+        let msg = SecpMessage::from_digest(sighash.to_byte_array());
+        if secp.verify_ecdsa(&msg, &sig, key).is_err() {
+            return Err(format!("input {}: signature does not verify under the channel's {} key {}", i, if *is_static { "payment" } else { "delayed payment (per-commitment-tweaked)" }, key));
+        }
+    }
+    Ok(())
+}
+
 fn chan_setup(id0: &[u8], value: u64, net: Network) -> lightning_signer::channel::ChannelSetup {
     let mut setup = make_test_channel_setup();
     setup.channel_value_sat = value;
@@ -755,7 +856,7 @@ impl Group for C18Node {
          (random value, optionally with a permanent id), real validate+revoke steps (counterparty-signed holder \
          commitments), per-commitment queries around next_holder_commit_num (0, next-1..next+2, 2^48-1, 2^48), restarts \
          through the real persister with a different starting time, and 1-2 further fresh nodes on the same seed that \
-         create the ids in another order; repeated revocations of older commitments (revoke_previous_holder_commitment(N) for N from 0 to next+1, directly and as RevokeCommitmentTx over the wire protocol) and the pre-v6 GetPerCommitmentPoint reply (point n + secret n-2) through a real ChannelHandler, at random later points, before and after restarts; non-trivial = at least two distinct channel ids, at least one restart or second \
+         create the ids in another order; sweeps of a channel's own to_remote/to_local outputs through Node::spend_spendable_outputs (Static/DelayedPaymentOutput descriptors built from what the channel reports; the witness must be made with the channel's keys); repeated revocations of older commitments (revoke_previous_holder_commitment(N) for N from 0 to next+1, directly and as RevokeCommitmentTx over the wire protocol) and the pre-v6 GetPerCommitmentPoint reply (point n + secret n-2) through a real ChannelHandler, at random later points, before and after restarts; non-trivial = at least two distinct channel ids, at least one restart or second \
          instantiation, and at least one secret released by a real revoke"
     }
     fn budget(&self, tier: Tier) -> usize { if tier == Tier::Quick { 600 } else { 6000 } }
@@ -799,7 +900,14 @@ impl Group for C18Node {
                 format!("getpoint 1 {} 5", pa),
                 format!("getpoint 2 {} 1", pb),
                 format!("getpoint 2 {} 2", pb),
+                // sweeps of the channels' own outputs: the signer is re-derived from the descriptor's keys id
+                format!("sweep 1 {} s 0", pa),
+                format!("sweep 1 {} d 3", pa),
+                format!("sweep 2 {} b 1", pb),
                 "restart".to_string(),
+                format!("sweep 1 {} b 2", pa),
+                format!("sweep 2 {} s 0", pb),
+                "sweepall 1".to_string(),
                 format!("rerevoke 1 {} 1", pa),
                 format!("rerevoke 1 {} 3", pa),
                 format!("node {} {} testnet", style, seed),
@@ -912,6 +1020,19 @@ impl Group for C18Node {
                 }
                 if roll < 5 {
                     ops.push("new_random".into());
+                    continue;
+                }
+                if roll < 7 && !created.is_empty() {
+                    // sweep of a channel's own to_remote / to_local output (stub or ready, before or
+                    // after restarts): the keys manager re-derives the signer from the descriptor
+                    let c = created[rng.below(created.len() as u64) as usize];
+                    if rng.chance(1, 4) {
+                        ops.push(format!("sweepall {}", rng.below(4)));
+                        continue;
+                    }
+                    let kind = *rng.pick(&["s", "d", "b"]);
+                    let n = match rng.below(4) { 0 => 0, 1 => st[c].2, 2 => rng.below(st[c].2 + 3), _ => INITIAL - rng.below(3) };
+                    ops.push(format!("sweep {} {} {} {}", pool[c].0, hx(&pool[c].1), kind, n));
                     continue;
                 }
                 if created.is_empty() || (!pending.is_empty() && roll < 9) {
@@ -1182,11 +1303,28 @@ impl Group for C18Node {
                                     }
                                 }
                                 mon.co.tags.insert(format!("commit:point-{}", if point.is_some() { "ok" } else { "refused" }));
+                                // "is this your secret n?" (CheckFutureSecret): the answer is a function of
+                                // (seed, id, n, suggested) — yes for the channel's own secret n, no for another
+                                // one — whatever the channel's progress
+                                let future = match secret {
+                                    None => "na".to_string(),
+                                    Some(sec) => {
+                                        let own = SecretKey::from_slice(&sec).unwrap();
+                                        let other = SecretKey::from_slice(&{ let mut o = sec; o[31] ^= 1; o }).unwrap_or(own);
+                                        let a = l.node.with_channel_base(&id0, |b| b.check_future_secret(n, &own));
+                                        let b2 = l.node.with_channel_base(&id0, |b| b.check_future_secret(n, &other));
+                                        if !matches!(a, Ok(true)) || (other != own && !matches!(b2, Ok(false))) {
+                                            mon.fire("future-secret-check-depends-on-history", format!("channel {}: check_future_secret({}, own secret) = {:?}, check_future_secret({}, another value) = {:?}", hx(&id0v), n, a.as_ref().map_err(|e| e.message().to_string()), n, b2.as_ref().map_err(|e| e.message().to_string())));
+                                        }
+                                        match a { Ok(true) => "yes".into(), Ok(false) => "no".into(), Err(_) => "err".into() }
+                                    }
+                                };
                                 format!(
-                                    "secret={} point={} released={}",
+                                    "secret={} point={} released={} future={}",
                                     secret.map(|s| hx(&s)).unwrap_or("none".into()),
                                     if point.is_some() { "ok" } else { "refused" },
-                                    if released.is_some() { "yes" } else { "no" }
+                                    if released.is_some() { "yes" } else { "no" },
+                                    future
                                 )
                             }
                         }
@@ -1251,6 +1389,68 @@ impl Group for C18Node {
                                     format!("ok pointsecret={} secret={}", ps, r.secret.as_ref().map(|s| hx(&s.0)).unwrap_or("none".into()))
                                 }
                                 _ => { mon.co.tags.insert("getpoint:err".into()); "err".into() }
+                            }
+                        }
+                    }
+                    _ => "bad-op".into(),
+                },
+                ["sweep", db, pr, kind, ns] => match (db.parse::<u64>(), unhx(pr), ns.parse::<u64>(), live.as_ref()) {
+                    (Ok(dbid), Some(peer), Ok(n), Some(l)) if peer.len() == 33 && n <= INITIAL && ["s", "d", "b"].contains(kind) => {
+                        let id0v = le_chan_id(&peer, dbid);
+                        let id0 = ChannelId::new(&id0v);
+                        match l.node.get_channel(&id0) {
+                            Err(_) => "none".into(),
+                            Ok(slot) => {
+                                let s = slot.lock().unwrap();
+                                let keys = with_keys(&s, |k, _| k.clone());
+                                let reported = s.get_channel_basepoints();
+                                drop(s);
+                                mon.observe(l, &id0, "before sweep");
+                                mon.co.tags.insert(format!("sweep:{}:{}", kind, l.style));
+                                match sweep_check(&l.node, &keys, &reported, kind, n) {
+                                    Ok(()) => {
+                                        let pcs = hx(&keys.release_commitment_secret(INITIAL - n).unwrap());
+                                        match *kind {
+                                            "s" => format!("ok key={}", hx(&keys.payment_key.secret_bytes())),
+                                            "d" => format!("ok key={} pcs={}", hx(&keys.delayed_payment_base_key.secret_bytes()), pcs),
+                                            _ => format!("ok key={} key2={} pcs={}", hx(&keys.payment_key.secret_bytes()), hx(&keys.delayed_payment_base_key.secret_bytes()), pcs),
+                                        }
+                                    }
+                                    Err(why) => {
+                                        mon.fire("sweep-keys-differ-from-channel-keys", format!("channel {} under {}: sweeping its own {} output: {}", hx(&id0v), l.cfgkey, match *kind { "s" => "to_remote", "d" => "to_local", _ => "to_remote and to_local" }, why));
+                                        "mismatch".into()
+                                    }
+                                }
+                            }
+                        }
+                    }
+                    _ => "bad-op".into(),
+                },
+                ["sweepall", ns] => match (ns.parse::<u64>(), live.as_ref()) {
+                    (Ok(n), Some(l)) if n <= INITIAL => {
+                        // every channel of the node that was created through new_channel (the random ones
+                        // are unknown to the model), both outputs, in ONE call
+                        let randoms: Vec<Vec<u8>> = l.random_ids.iter().map(|i| i.inner().clone()).collect();
+                        let mut seen = std::collections::BTreeSet::new();
+                        let mut chans = Vec::new();
+                        let ids: Vec<ChannelId> = l.node.get_channels().keys().cloned().collect();
+                        for id in ids {
+                            let slot = l.node.get_channel(&id).unwrap();
+                            let s = slot.lock().unwrap();
+                            let id0v = s.id().inner().clone();
+                            if randoms.contains(&id0v) || !seen.insert(id0v) { continue; }
+                            chans.push((with_keys(&s, |k, _| k.clone()), s.get_channel_basepoints()));
+                        }
+                        mon.co.tags.insert(format!("sweepall:{}", chans.len().min(4)));
+                        if chans.is_empty() {
+                            "ok 0".into()
+                        } else {
+                            match sweep_check_many(&l.node, &chans, "b", n) {
+                                Ok(()) => format!("ok {}", chans.len()),
+                                Err(why) => {
+                                    mon.fire("sweep-keys-differ-from-channel-keys", format!("sweeping both outputs of all {} channels under {} in one call: {}", chans.len(), l.cfgkey, why));
+                                    "mismatch".into()
+                                }
                             }
                         }
                     }
